@@ -948,4 +948,39 @@ theorem countLoop_replicate (st : Store) (prefs : List Bytes) :
   | nil => rfl
   | cons p r ih => simp [List.flatMap_cons] at ih ⊢; omega
 
+/-! ### Normalisation of the question name -/
+
+set_option maxRecDepth 100000 in
+theorem lowerByte_idem : ∀ c : UInt8, lowerByte (lowerByte c) = lowerByte c := by
+  apply forall_uint8; decide
+
+set_option maxRecDepth 100000 in
+theorem lowerByte_dot : ∀ c : UInt8, (lowerByte c = dot ↔ c = dot) := by
+  apply forall_uint8; decide
+
+set_option maxRecDepth 100000 in
+theorem isHex_lower : ∀ c : UInt8, isHex (lowerByte c) = isHex c := by
+  apply forall_uint8; decide
+
+set_option maxRecDepth 100000 in
+theorem hexVal_lower : ∀ c : UInt8, isHex c = true → hexVal (lowerByte c) = hexVal c := by
+  apply forall_uint8; decide
+
+theorem getLast?_map_lower (q : Bytes) : (q.map lowerByte).getLast? = some dot ↔ q.getLast? = some dot := by
+  rw [List.getLast?_map]
+  cases q.getLast? with
+  | none => simp
+  | some c => simp [lowerByte_dot c]
+
+/-- Lower-casing and dropping the final dot commute. -/
+theorem dropFinalDot_map_lower (q : Bytes) :
+    dropFinalDot (q.map lowerByte) = (dropFinalDot q).map lowerByte := by
+  unfold dropFinalDot
+  by_cases h : q.getLast? = some dot
+  · have h' := (getLast?_map_lower q).2 h
+    rw [if_pos h', if_pos h]
+    simp [List.dropLast_eq_take, List.map_take]
+  · have h' : ¬ (q.map lowerByte).getLast? = some dot := fun h2 => h ((getLast?_map_lower q).1 h2)
+    rw [if_neg h', if_neg h]
+
 end Agd.HashPrefix
